@@ -412,6 +412,11 @@ def replay(rec):
   return bad
 
 
+def jax_leaves(tree, VS):
+  import jax
+  return jax.tree.leaves(tree, is_leaf=lambda x: isinstance(x, VS))
+
+
 def atext(a):
   if a[0] == 'update':
     return 'update[' + a[1] + (',' + G.ftext(a[2]) if len(a) > 2 else '') + ']'
@@ -787,6 +792,24 @@ class Explorer:
       self.V('4-update-identity', self.hist, action,
              'update replaced a graph node / Variable / container instead of updating in place')
       return None
+    # the State handed to update stays the caller's: no metadata dict is shared between a
+    # VariableState of the argument and a Variable of the graph, in either direction
+    VS, Variable = self.R['VariableState'], self.R['Variable']
+    vss = [l for st in states for l in jax_leaves(st, VS) if isinstance(l, VS)]
+    gvars = [n for _, n in nnx.iter_graph(live) if isinstance(n, Variable)]
+    if vss and gvars:
+      for v in gvars:
+        v.zz_probe_graph = 1
+      if any('zz_probe_graph' in vs.get_metadata() for vs in vss):
+        self.V('4-update-alias', self.hist, action,
+               'editing metadata of a graph Variable after update changed the State that was '
+               'passed to update (shared metadata dict)')
+      for vs in vss:
+        vs.zz_probe_state = 1
+      if any('zz_probe_state' in v.get_metadata() for v in gvars):
+        self.V('4-update-alias', self.hist, action,
+               'editing metadata of the State after update changed a graph Variable '
+               '(shared metadata dict)')
     core.outcome(self.res, 'update:' + ('changed' if want != before else 'noop'))
     return model
 
